@@ -1454,5 +1454,120 @@ mod verif_deflate_core {
         kani::cover!(inb[2] == 0x42 && written >= 5, "COV:storedc.ran_to_completion");
     }
 
+    /// Level/format setters (set_compression_level[_raw] are thin wrappers of set_format_and_level): either the request is
+    /// refused and nothing changes, or flags, parser mode and probe budgets change TOGETHER (the matchers read the
+    /// budgets, the dispatcher and recorders read the flags: a stale half would e.g. probe under Huffman-only);
+    /// the window fixed at construction -- what the header declares and the matchers cap at -- never changes.
+    #[kani::proof]
+    fn k_set_format_and_level() {
+        let mut d = any_compressor!();
+        let (f0, g0, p0, w0) = (d.params.flags, d.params.greedy_parsing, d.dict.max_probes, d.params.window_bits_max);
+        let fmt = any_format();
+        let level: u8 = kani::any();
+        let which: u8 = kani::any();
+        match which % 2 {
+            0 => d.set_format_and_level(fmt, level),
+            _ => { kani::assume(fmt == d.data_format() || (fmt == DataFormat::Raw) == (d.data_format() == DataFormat::Raw)); d.set_compression_level_raw(level) }
+        }
+        let f = d.params.flags;
+        assert!(d.params.window_bits_max == w0, "OBL:setlevel.window_fixed_at_construction_is_never_changed [C11 C09]");
+        assert!(d.params.greedy_parsing == (f & TDEFL_GREEDY_PARSING_FLAG != 0), "OBL:setlevel.parser_mode_follows_the_flags [C10]");
+        assert!(d.dict.max_probes[0] == probes_from_flags(f)[0] && d.dict.max_probes[1] == probes_from_flags(f)[1], "OBL:setlevel.probe_budgets_follow_the_flags [C10]");
+        if f != f0 {
+            let lv = core::cmp::min(level, 10);
+            assert!((f & TDEFL_FORCE_ALL_RAW_BLOCKS != 0) == (level == 0), "OBL:setlevel.level0_iff_stored_only [C01 C10]");
+            assert!(f & (TDEFL_RLE_MATCHES | TDEFL_FILTER_MATCHES | TDEFL_FORCE_ALL_STATIC_BLOCKS) == 0, "OBL:setlevel.strategy_reset_to_default [C10]");
+        } else {
+            assert!(d.params.greedy_parsing == g0 && d.dict.max_probes[0] == p0[0] && d.dict.max_probes[1] == p0[1], "OBL:setlevel.refused_request_changes_nothing [C10 C18]");
+        }
+        kani::cover!(f != f0, "COV:setlevel.accepted");
+        kani::cover!(f == f0 && which % 2 == 0 && level >= 2, "COV:setlevel.refused_or_same");
+    }
+
+    // ------------------------------------------------------------------
+    // K-sink : the callback output route (compress_to_output). (1) CallbackOxide::flush_output with a callback sink
+    // hands the callback exactly the bytes produced, once; a refusal is latched as PutBufFailed. (2) compress_to_output
+    // over the same engine / flush_block models as K-dispatch: counts, latching, Finish stickiness, no spurious Done.
+    // ------------------------------------------------------------------
+    #[kani::proof]
+    fn k_callback_sink_flush_output() {
+        let mut d = any_compressor!();
+        let pos: usize = kani::any();
+        kani::assume(pos <= OUT_BUF_SIZE - 16);
+        let fr: u32 = kani::any();
+        d.params.flush_remaining = fr;
+        let st0 = any_status();
+        d.params.prev_return_status = st0;
+        let accept: bool = kani::any();
+        let calls = core::cell::Cell::new(0usize);
+        let seen_ptr = core::cell::Cell::new(0usize);
+        let seen_len = core::cell::Cell::new(usize::MAX);
+        let base = d.params.local_buf.b.as_ptr() as usize;
+        let inb = [0u8; 2];
+        let r;
+        {
+            let mut f = |b: &[u8]| -> bool { calls.set(calls.get() + 1); seen_ptr.set(b.as_ptr() as usize); seen_len.set(b.len()); accept };
+            let mut cb = CallbackOxide::new_callback_func(&inb[..], CallbackFunc { put_buf_func: &mut f });
+            let saved = SavedOutputBufferOxide { pos, bit_buffer: kani::any(), bits_in: kani::any(), local: true };
+            r = cb.flush_output(saved, &mut d.params);
+        }
+        if pos == 0 {
+            assert!(calls.get() == 0 && r == fr as i32 && d.params.prev_return_status == st0, "OBL:sink.nothing_produced_nothing_delivered [C02]");
+        } else {
+            assert!(calls.get() == 1 && seen_ptr.get() == base && seen_len.get() == pos, "OBL:sink.callback_receives_exactly_the_bytes_produced_once [C02 C01]");
+            if accept {
+                assert!(r == fr as i32 && d.params.prev_return_status == st0, "OBL:sink.accepted_output_leaves_the_status_alone [C02 C14]");
+            } else {
+                assert!(r < 0 && d.params.prev_return_status == TDEFLStatus::PutBufFailed, "OBL:sink.refusal_is_latched_as_put_buf_failed [C02 C14]");
+            }
+        }
+        kani::cover!(pos > 0 && !accept, "COV:sink.refused");
+    }
+
+    #[kani::proof]
+    #[kani::stub(compress_stored, model_stored)]
+    #[kani::stub(compress_fast, model_fast)]
+    #[kani::stub(compress_normal, model_normal)]
+    #[kani::stub(flush_block, model_flush_block)]
+    #[kani::stub(update_adler32, model_adler)]
+    #[kani::stub(<[u16]>::fill, model_fill)]
+    fn k_compress_to_output_protocol() {
+        let mut d = any_compressor!();
+        let flush = dispatch_havoc(&mut d);
+        kani::assume(d.params.flush_remaining == 0); // a callback sink never leaves output pending (k_callback_sink_flush_output: returns flush_remaining unchanged)
+        let inb: [u8; 4] = kani::any();
+        let inl: usize = kani::any();
+        kani::assume(inl <= 4);
+        let prev_status = d.params.prev_return_status;
+        let prev_flush = d.params.flush;
+        let finished0 = d.params.finished;
+        let (st, ipos) = compress_to_output(&mut d, &inb[..inl], flush, |_b: &[u8]| -> bool { true });
+        let route = d.params.saved_lit;
+        let fb = d.params.saved_match_len;
+        assert!(ipos <= inl, "OBL:sink.consumed_le_offered [C02 C14]");
+        let bad = prev_status != TDEFLStatus::Okay || (prev_flush == TDEFLFlush::Finish && flush != TDEFLFlush::Finish);
+        if bad {
+            assert!(st == TDEFLStatus::BadParam && ipos == 0 && route == ROUTE_NONE && fb == 0 && d.params.prev_return_status == TDEFLStatus::BadParam,
+                "OBL:sink.badparam_on_latched_status_or_nonfinish_after_finish [C02 C14]");
+            return;
+        }
+        assert!(d.params.prev_return_status == st, "OBL:sink.status_latched [C14]");
+        if finished0 {
+            assert!(route == ROUTE_NONE && fb == 0 && ipos == 0 && st == TDEFLStatus::Done, "OBL:sink.finished_stream_stays_done_and_consumes_nothing [C14 C02]");
+            return;
+        }
+        assert!(route != ROUTE_NONE, "OBL:sink.engine_called [C02]");
+        if st == TDEFLStatus::PutBufFailed { return; }
+        assert!(ipos == d.params.src_pos, "OBL:sink.in_pos_is_src_pos [C02]");
+        if fb != 0 {
+            assert!(fb == 1 + flush as u32 && flush != TDEFLFlush::None && ipos == inl, "OBL:sink.final_flush_block_only_with_the_requested_mode_after_all_input [C12 C02]");
+        }
+        if st == TDEFLStatus::Done {
+            assert!(flush == TDEFLFlush::Finish && d.params.finished, "OBL:sink.done_only_after_finish [C14 C02]");
+        }
+        kani::cover!(st == TDEFLStatus::Done, "COV:sink.done");
+        kani::cover!(fb != 0 && st == TDEFLStatus::Okay, "COV:sink.flush_block_okay");
+    }
+
     //@PLAYBACK@
 }
